@@ -225,6 +225,11 @@ func NewExplorer(m *Model) *Explorer {
 	for fn := range x.touches {
 		x.statePkgs[fnPkgPath(fn)] = true
 	}
+	for _, ep := range m.Entries {
+		if ep.Fn != nil && ep.Implemented {
+			x.statePkgs[fnPkgPath(ep.Fn)] = true
+		}
+	}
 	return x
 }
 
@@ -801,6 +806,13 @@ func (x *Explorer) step(fr *Frame, st *State, in ssa.Instruction) {
 			fr.env[ins] = v
 		}
 	case *ssa.Slice:
+		// make([]T, 0, c) with constant c is lowered to new([c]T)[:0]: an empty sequence
+		if n, ok := constIntOrNil(ins.High); ok && n == 0 {
+			o := st.newObj("array", ins.Type())
+			o.Origin = "make:0"
+			fr.env[ins] = &Ptr{O: o.ID}
+			break
+		}
 		fr.env[ins] = x.eval(fr, st, ins.X)
 	case *ssa.Extract:
 		t := x.eval(fr, st, ins.Tuple)
